@@ -11,6 +11,10 @@ def build(tier):
                                      timeout=400 if quick else 2400))
     # index titles: prefix given / defaulted, separator '.' / '::', recursive and not
     obs.append(trees.tree_ob("C14 titles", "S4", "tree", dict(base, auto_ex=False), fixrev=True, timeout=400 if quick else 2400))
+    # beyond the quantifier (directories holding only mixed-case *.CMAKE files under auto-exclusion etc.): closure only
+    for sk in (["S2b"] if quick else ["S2b", "S2", "S4"]):
+        obs.append(trees.tree_ob("C14 closure", sk, "closure", dict(base, recursive=True, auto_ex=True, has_prefix=False, sep2=False), fixrev=True,
+                                 fixp=True, timeout=400 if quick else 2400, note=" (every toctree entry has a target, every page is reachable)"))
     if not quick:
         obs.append(trees.tree_ob("C14 presence", "S2", "tree", dict(base, recursive=True, auto_ex=True, has_prefix=False, sep2=False),
                                  fixp=False, fixrev=True, timeout=2400))
